@@ -230,6 +230,22 @@ func vShape(shape int) (src, dst addr.IA, ups, cores, downs []*seg.PathSegment) 
 	panic("unknown shape")
 }
 
+// VerifShape exports the shapes to the path-lookup harness (C30, package segfetcher).
+func VerifShape(shape int) (src, dst addr.IA, ups, cores, downs []*seg.PathSegment) {
+	return vShape(shape)
+}
+
+// VerifCoreASes lists the core ASes of the shapes' topology per ISD.
+func VerifCoreASes(isd addr.ISD) []addr.IA {
+	switch isd {
+	case 1:
+		return []addr.IA{vC1, vC2}
+	case 2:
+		return []addr.IA{vC3}
+	}
+	return nil
+}
+
 // ---- reference combinations ---------------------------------------------------------------------
 
 type vHop struct {
@@ -249,6 +265,7 @@ type vPart struct {
 	exps    []time.Time // absolute expiry of every hop field used
 	mtu     uint16    // minimum of the internal and link MTUs along the part
 	links   int       // inter-AS links traversed (a peering link is counted on the down side)
+	cut     int       // index of the AS entry at which the segment is left / entered (0 = whole segment)
 }
 
 type vRef struct {
@@ -291,7 +308,7 @@ func vBeta(s *seg.PathSegment, k int) uint16 {
 func vAgainst(s *seg.PathSegment, i, pk int) vPart {
 	n := len(s.ASEntries)
 	ts := vTS(s)
-	p := vPart{ts: ts, consDir: false, peer: pk >= 0, mtu: 0xffff}
+	p := vPart{ts: ts, consDir: false, peer: pk >= 0, mtu: 0xffff, cut: i}
 	// SegID: the first hop processed is entry n-1, which is verified with beta_{n-1}; if that hop
 	// is itself the peering hop, with beta_n (scion-header.rst, "Peering Links").
 	k := n - 1
@@ -335,7 +352,7 @@ func vAgainst(s *seg.PathSegment, i, pk int) vPart {
 func vAlong(s *seg.PathSegment, j, qk int) vPart {
 	m := len(s.ASEntries)
 	ts := vTS(s)
-	p := vPart{ts: ts, consDir: true, peer: qk >= 0, mtu: 0xffff}
+	p := vPart{ts: ts, consDir: true, peer: qk >= 0, mtu: 0xffff, cut: j}
 	k := j
 	if qk >= 0 {
 		k = j + 1
